@@ -275,9 +275,29 @@ func casesC02(g *Gen) []*Case {
 	}
 	// text that directly follows @else / @end is unaffected, whatever letter it starts with
 	for _, t := range []string{"i", "ix", "invalid", "I", "If", "in", "e", "end", "(x)", "f", "if ", "1",
-		" if you have not paid yet, please do.", " if (n) is not one", " if", "  if (x)", "\nif (x) y", " IF x", "If (x)", " elseif", " else", "s if", ": if (a) b", " i f", "-if(x)"} {
+		" if you have not paid yet, please do.", " if (n) is not one", " if", "  if (x)", "\nif (x) y", " IF x", "If (x)", " elseif", " else", "s if", ": if (a) b", " i f", "-if(x)",
+		" (none)", "  (x)", "\t(x)", " ()", " ( a )", " (see below)", "\t (x) y", " (", "  ((x))"} {
 		if strings.HasPrefix(t, "if") {
 			continue // "@else" + "if…" is the keyword @elseif
+		}
+		if strings.Contains(t, "(") {
+			// white space and a parenthesis after a branch's directive are text of the branch, for every branch and after @end
+			for _, tv := range []bool{true, false} {
+				cnd, want := "true", "Comments"+t+"|"+t
+				if !tv {
+					cnd, want = "false", "Comments"+t+"|"+t
+				}
+				c := evalCase("branch_text_in_parentheses", "Comments@if("+cnd+")"+t+"@else"+t+"@end|"+t, nil)
+				c.Oracle = expectOut(want)
+				cs = append(cs, c)
+				c = evalCase("branch_text_in_parentheses", "@if(false)a@elseif("+cnd+")"+t+"@else"+t+"!@end"+t, nil)
+				if tv {
+					c.Oracle = expectOut(t + t)
+				} else {
+					c.Oracle = expectOut(t + "!" + t)
+				}
+				cs = append(cs, c)
+			}
 		}
 		for _, tv := range []bool{true, false} {
 			want := "A" + "|" + t
